@@ -50,6 +50,15 @@ CHECKS = {
  "C16": dict(cat="model_checking", tech="TLA+ hierarchy model (DensityHier.tla: all interleavings of refine/coarsen/move) executed by the real object + TLC validation of every observed state (DensityOps: tiling, capacity, partition, coordinates)",
              text="Design level: TLC explores all interleavings of the view-changing operations and a contract-level move on small grids (tiling, partition, aggregation invariants) and every history is executed by the real HierarchicalDensityPlacement/DensityLegalizer; code level: random regions, parameters and operation sequences, and grids built from circuits; after every operation TLC recomputes capacities from the regions and checks the partition and the coordinates.",
              ref="5/C16", engine="tlc-design; record + tlc-trace"),
+ "C17": dict(cat="exploration", tech="TLA+ quadratic-model oracle (NetQuadratic.tla: stationarity of the documented weighted least-squares objective in fixed point) + scaling contract validated by TLC on recorded solver runs",
+             text="Exploration with a TLA+ oracle: the conjugate-gradient iteration is not modelled. Recorded solveStar/solve/solveWithPenalty runs on small net lists with dyadic fractional weights are re-run with all weights and penalties scaled; TLC compares float bit patterns for 2^k factors, tolerances otherwise, and evaluates the gradient of the documented quadratic at the returned star solution.",
+             ref="5/C17", engine="record + tlc-trace"),
+ "C18": dict(cat="model_checking", tech="TLA+ integer post-conditions of the three expansion entry points (cross-multiplied rationals) evaluated by TLC on recorded executions with dyadic arguments",
+             text="Every recorded expandCellsToDensity / expandCellsByFactor / computeCellExpansion call is judged by TLC: frame (only movable widths), monotonicity unless capped, utilisation bound after margin, target reached within rounding when uncapped, expansion factors as the maximum over intersecting congested regions.",
+             ref="5/C18", engine="record + tlc-trace"),
+ "C20": dict(cat="exploration", tech="identity contract on export -> read-back executions (real exportIspd + the package's reader on a Python stand-in) and name relation on the binding table extracted from module.cpp, both evaluated by TLC",
+             text="Weakest use of the family (DESIGN section 8): recorded export/read executions are validated against an identity relation field by field, and the binding table of the module source against a same-name relation; the compiled module cannot be built offline.",
+             ref="5/C20", engine="record + tlc-trace"),
  "C19": dict(cat="model_checking", tech="finite table of invalid-input attempts executed under ASan+UBSan, outcomes validated by TLC against PlaceAPI.tla (CtorFails, ParamCheckFails, SetterFails)",
              text="The attempt space (efforts, every field at/around each bound, every setter with wrong lengths, bad nets) is finite and enumerated completely; expected outcomes come from the contract operators evaluated by TLC; sanitizer reports and aborts are events outside the alphabet.",
              ref="5/C19", engine="record + tlc-trace"),
